@@ -227,7 +227,7 @@ def dirty(rng, text):
         if body and not body.startswith(("*", "#")) and r < 0.5:
             # the original indentation is replaced: it must not matter (and after_tab gets set on first chunks)
             lead = rng.choice(["\t", "  \t", " \t ", "\t  ", "    ", "\t\t", " ", "   \t\t", "\t \t", ""]) * rng.randint(1, 2)
-        if r > 0.7 and not l.rstrip().endswith("\\"):
+        if r > 0.7 and (not l.rstrip().endswith("\\") or r > 0.85):     # also behind a continuation backslash (gcc splices there too)
             body = body + rng.choice([" ", "\t", "  \t", "   "])
         if not body and rng.random() < 0.4:
             lead = rng.choice(["  ", "\t", " \t"])
